@@ -113,3 +113,48 @@ pub fn merge_all(rep: &mut Report, accs: Vec<Acc>) -> Vec<(String, u64)> {
     all.merge_into(rep, &mut extra);
     extra
 }
+
+/// Work pool for tree explorations: `f(worker_state, task, emit)` processes one task and may emit
+/// further tasks (sub-trees); every worker owns one `W` (accumulator) which is returned at the end.
+pub fn run_pool<T: Send, W: Send>(
+    threads: usize,
+    init: Vec<T>,
+    mk_worker: impl Fn() -> W + Sync,
+    f: impl Fn(&mut W, T, &mut Vec<T>) + Sync,
+    fin: impl Fn(&mut W) + Sync,
+) -> Vec<W> {
+    let queue: Mutex<(Vec<T>, usize)> = Mutex::new((init, 0)); // (work, in flight)
+    let out: Mutex<Vec<W>> = Mutex::new(vec![]);
+    std::thread::scope(|s| {
+        for _ in 0..threads.max(1) {
+            s.spawn(|| {
+                let mut w = mk_worker();
+                loop {
+                    let task = {
+                        let mut g = queue.lock().unwrap();
+                        match g.0.pop() {
+                            Some(t) => {
+                                g.1 += 1;
+                                Some(t)
+                            }
+                            None if g.1 == 0 => break,
+                            None => None,
+                        }
+                    };
+                    let Some(task) = task else {
+                        std::thread::sleep(std::time::Duration::from_micros(200));
+                        continue;
+                    };
+                    let mut more = vec![];
+                    f(&mut w, task, &mut more);
+                    let mut g = queue.lock().unwrap();
+                    g.0.append(&mut more);
+                    g.1 -= 1;
+                }
+                fin(&mut w);
+                out.lock().unwrap().push(w);
+            });
+        }
+    });
+    out.into_inner().unwrap()
+}
